@@ -69,4 +69,15 @@ PROPS = {
              'distinct = hash(pattern, address block) for exh and hash(pattern,address,types) for rand; non-trivial = every pair (each is decided by the reference).',
         exhaustive=dict(quick=True, thorough=True),
         assumptions=['exhaustive only inside the stated small scope (stage exh); stage rand is sampled', 'reference matcher patref.h']),
+    'C04': dict(
+        level_text='Runtime monitoring against a reference dispatcher: port trees are generated at run time (1..24 names over a small alphabet so shared prefixes, equal lengths and anagrams are frequent; :types specs; #N; nested to 3 levels; default handlers; ClonePorts/MergePorts derivations) and realised as real rtosc::Ports with logging callbacks; every derived address (exact, index 0/N-1/N/N+1/leading zeros, one character appended/removed/changed, missing/extra "/") x admitted and foreign type tags is dispatched from the root without and with a location buffer (reused across dispatches). The oracle compares the multiset of invoked callbacks (port id, message pointer offset, runtime object) with the reference, checks d.loc, d.port, d.message, d.matches, loc/obj restoration, and that both strategies invoke the same callbacks. The lookup-kind hook proves hashed and linear tables were both exercised.',
+        level_note='Trusts harness/treegen.h + patref.h (reference dispatcher). Type strings that extend an alternative are undecided (either outcome accepted). Addresses are printable ASCII. Default-handler invocations are only counted for d.matches.',
+        technique='reference-model differential monitor over generated port tables under AddressSanitizer/UBSan',
+        stages=[dict(harness='c04', variant='asan', quick=1500, thorough=40000,
+                     need=['tables.hashed', 'tables.linear_because_enum', 'tables.linear_hash_failed', 'dispatch.expect_delivery',
+                           'dispatch.expect_nothing', 'dispatch.nested_delivery', 'dispatch.default_handler_invoked', 'tables.MergePorts', 'tables.ClonePorts'])],
+        rule='case = one generated port tree with all addresses derived from it (evaluations counts dispatched (tree, address, types) triples, each run with and without location buffer); '
+             'distinct = hash of the rendered tree; non-trivial = every tree.',
+        exhaustive=dict(quick=False, thorough=False),
+        assumptions=['reference dispatcher treegen.h/patref.h']),
 }
